@@ -111,7 +111,7 @@ structure Note where
   recip : Bytes
   deriving DecidableEq, Repr
 
-inductive CleanReq | todo (m : Nat) | foop (m : Nat)
+inductive CleanReq | todo (m : Nat) | foop (m : Nat) | finished
   deriving DecidableEq, Repr
 
 structure Cfg where
@@ -212,14 +212,20 @@ def isInfix (pat s : Bytes) : Bool :=
 
 def sanitizeLF (b : Bytes) : Bytes := b.map (fun c => if c = 10 then 95 else c)
 
-/-- bytes of a clean request -/
-def reqBytes (prefix_ : String) (m : Nat) : Bytes := prefix_.toUTF8.toList ++ fmtNat m ++ [0]
+/-- `fmt_ulong`: decimal digits of `m` (kernel-reducible, unlike `toString`) -/
+def fmtDec (m : Nat) : Bytes := (Nat.toDigits 10 m).map (fun ch => ch.toNat.toUInt8)
 
 def allT (rs : List Rec) : Bool := rs.all (fun r => !r.done)
 def addrs (rs : List Rec) : List Bytes := rs.map (·.addr)
 def optAddrs : Option (List Rec) → List Bytes
   | some rs => addrs rs
   | none => []
+
+/-- a channel file (if the message has one) consists of `T` records only and is fsynced -/
+def chanReady (o : Option (List Rec)) (synced : Bool) : Bool :=
+  match o with
+  | some rs => allT rs && synced
+  | none => true
 
 /-- every recipient of the envelope, routed by `route`, is exactly the records of its channel file, in order -/
 def routedOk (cfg : Cfg) (rcpts : List Bytes) (l r : List Bytes) : Bool :=
@@ -288,7 +294,8 @@ def accept (cfg : Cfg) (s : St) : Ev → Option St
     let ms := s.msg m
     if s.clean.isNone ∧ !ms.mess ∧ !ms.intd ∧ ms.todo.isNone ∧ ms.info.isNone ∧ ms.loc.isNone ∧ ms.rem.isNone ∧ ms.bounce.isNone
        ∧ !chanBusy s m .loc ∧ !chanBusy s m .rem then
-      some (s.upd m fun _ => { mess := true, intd := true, todo := some (sender, rcpts), accepted := some (sender, rcpts) })
+      some { (s.upd m fun _ => { mess := true, intd := true, todo := some (sender, rcpts), accepted := some (sender, rcpts) })
+             with notes := [], mayMark := [] }
     else none
   | .unlinkChan m c =>
     let ms := s.msg m
@@ -338,11 +345,11 @@ def accept (cfg : Cfg) (s : St) : Ev → Option St
   | .cleanReq bs =>
     if s.clean.isSome then none else
     -- find the message the request names
-    let isTodo := bs.take 5 == "todo/".toUTF8.toList
-    let isFoop := bs.take 5 == "foop/".toUTF8.toList
+    let isTodo := bs.take 5 == [116, 111, 100, 111, 47]     -- "todo/"
+    let isFoop := bs.take 5 == [102, 111, 111, 112, 47]     -- "foop/"
     let digits := (bs.drop 5).dropLast
     let m := decVal digits
-    if bs.getLast? ≠ some 0 ∨ digits.isEmpty ∨ !digits.all isDigit ∨ fmtNat m ≠ digits then none
+    if bs.getLast? ≠ some 0 ∨ digits.isEmpty ∨ !digits.all isDigit ∨ fmtDec m ≠ digits then none
     else
       let ms := s.msg m
       if isTodo then
@@ -350,9 +357,8 @@ def accept (cfg : Cfg) (s : St) : Ev → Option St
         | none => none
         | some (sender, rcpts) =>
           -- preprocessing is complete and durable: info and the channel files hold the whole envelope
-          let lOk := match ms.loc with | some rs => allT rs && ms.locSynced | none => true
-          let rOk := match ms.rem with | some rs => allT rs && ms.remSynced | none => true
-          if ms.info = some (70 :: sender ++ [0]) ∧ ms.infoSynced = true ∧ lOk = true ∧ rOk = true ∧
+          if ms.info = some (70 :: sender ++ [0]) ∧ ms.infoSynced = true ∧
+             chanReady ms.loc ms.locSynced = true ∧ chanReady ms.rem ms.remSynced = true ∧
              routedOk cfg rcpts (optAddrs ms.loc) (optAddrs ms.rem) = true ∧
              ms.loc ≠ some [] ∧ ms.rem ≠ some [] then
             some { s with clean := some (.todo m) }
@@ -366,18 +372,19 @@ def accept (cfg : Cfg) (s : St) : Ev → Option St
     match s.clean with
     | some (.todo k) => if k = m then some (s.upd m fun ms => { ms with intd := false }) else none
     | some (.foop k) => if k = m then some (s.upd m fun ms => { ms with intd := false }) else none
-    | none => none
+    | _ => none
   | .cUnlinkTodo m =>
     match s.clean with
     | some (.todo k) =>
       if k = m then
-        some (s.upd m fun ms => { ms with todo := none, placedLoc := optAddrs ms.loc, placedRem := optAddrs ms.rem,
-                                          fin := [], delivered := [], noted := [], inFile := [], bounced := [] })
+        some { (s.upd m fun ms => { ms with todo := none, placedLoc := optAddrs ms.loc, placedRem := optAddrs ms.rem,
+                                            fin := [], delivered := [], noted := [], inFile := [], bounced := [] })
+               with notes := [], mayMark := [], clean := some .finished }
       else none
     | _ => none
   | .cUnlinkMess m =>
     match s.clean with
-    | some (.foop k) => if k = m then some (s.upd m fun ms => { ms with mess := false }) else none
+    | some (.foop k) => if k = m then some { (s.upd m fun ms => { ms with mess := false }) with clean := some .finished } else none
     | _ => none
   | .cleanResp _ => if s.clean.isSome then some { s with clean := none } else none
   | .cmd c delnum m pos recip =>
@@ -449,13 +456,15 @@ def accept (cfg : Cfg) (s : St) : Ev → Option St
     | none => none
     | some rs =>
       -- only un-fsynced single-byte D marks may revert to T; nothing else changes
-      if s.slots.isEmpty ∧ marks.length = rs.length ∧ (List.range rs.length).all (fun i => !(marks.getD i false) || (rs.getD i ⟨false, []⟩).done) then
+      if s.clean.isNone ∧ s.slots.isEmpty ∧ marks.length = rs.length ∧ (List.range rs.length).all (fun i => !(marks.getD i false) || (rs.getD i ⟨false, []⟩).done) then
         some (s.upd m fun ms => ms.setChan c (some ((rs.zip marks).map fun (r, d) => { r with done := d })))
       else none
   | .crashBounce m content =>
-    if s.slots.isEmpty then some (s.upd m fun ms => { ms with bounce := some content, lost := true, lastInject := false }) else none
+    if s.clean.isNone ∧ s.slots.isEmpty ∧ ((s.msg m).bounce.isSome ∨ ((s.msg m).todo.isNone ∧ (s.msg m).info.isSome)) then
+      some (s.upd m fun ms => { ms with bounce := some content, lost := true, lastInject := false })
+    else none
   | .crashTodoFiles m =>
-    if s.slots.isEmpty ∧ (s.msg m).todo.isSome then
+    if s.clean.isNone ∧ s.slots.isEmpty ∧ (s.msg m).todo.isSome then
       some (s.upd m fun ms => { ms with infoSynced := false, locSynced := false, remSynced := false,
                                          info := ms.info.map (fun _ => []), loc := ms.loc.map (fun _ => []), rem := ms.rem.map (fun _ => []) })
     else none
